@@ -235,7 +235,14 @@ func signJWS() {
 		for _, g := range got {
 			if rt.Same(g.Key, a.key) {
 				found++
-				rt.Assert(g.Critical == a.crit && rt.Same(g.Value, a.val), "C08.jws.attribute.same")
+				if n, isInt := a.val.(int64); isInt && numbersModelS {
+					// a number comes back as float64; it must be the number that was asked for
+					f, isF := g.Value.(float64)
+					rt.Assert(g.Critical == a.crit && isF && f == float64(n), "C08.jws.attribute.same")
+					rt.AssertKnown(float64Exact(n), "C08.jws.attribute.number.exact", "F12", rt.Not(float64Exact(n)))
+				} else {
+					rt.Assert(g.Critical == a.crit && rt.Same(g.Value, a.val), "C08.jws.attribute.same")
+				}
 			}
 		}
 		rt.Assert(found == 1, "C08.jws.attribute.once")
